@@ -399,10 +399,12 @@ const (
 	vSemi
 	vLeadC
 	vTrailC
+	vBothC
+	vTwoLeadC
 	nVariants
 )
 
-var variantNames = [nVariants]string{"as-is", "upper-keywords", "lower-keywords", "extra-whitespace", "trailing-semicolon", "leading-comment", "trailing-comment"}
+var variantNames = [nVariants]string{"as-is", "upper-keywords", "lower-keywords", "extra-whitespace", "trailing-semicolon", "leading-comment", "trailing-comment", "leading-and-trailing-comment", "two-leading-comments"}
 
 var spaces = []string{"  ", "\n", "\t", " \n\t ", "\r\n", "   "}
 
@@ -411,8 +413,11 @@ func renderToks(toks []tok, variant int) string {
 	if variant == vSpace {
 		b.WriteString(" \n\t")
 	}
-	if variant == vLeadC {
+	if variant == vLeadC || variant == vBothC {
 		b.WriteString("/* c05 lead */ ")
+	}
+	if variant == vTwoLeadC {
+		b.WriteString("/* c05 */ /* lead */ ")
 	}
 	nsp := 0
 	for i, t := range toks {
@@ -440,7 +445,7 @@ func renderToks(toks []tok, variant int) string {
 		b.WriteString("\n \t")
 	case vSemi:
 		b.WriteString(";")
-	case vTrailC:
+	case vTrailC, vBothC:
 		b.WriteString(" /* c05 trail */")
 	}
 	return b.String()
